@@ -440,6 +440,26 @@ def direct_backends(name, full, Q, wp, fail, acc):
                 else:
                     fail(f"{bname}: differs from scipy expm(Q t) [{c}]", {"t": t, "max_abs_diff": float(d), "|Q t|_inf": qn * t})
         acc.count("direct_backend_evaluations", len(DIRECT_T))
+        # history: the same exponentiator object is asked for its times in the opposite order (long first); whatever an
+        # earlier call leaves behind must not change a later answer
+        if bname in ("TaylorExponentiator",) or (bname in ("FastExponentiator", "CheckedExponentiator") and cls == ILL):
+            continue
+        try:
+            with warnings.catch_warnings():
+                warnings.simplefilter("ignore")
+                ex2 = mk(Q.copy())
+                for t in DIRECT_T[::-1]:
+                    p2 = numpy.asarray(ex2(t), float)
+                    p1 = numpy.asarray(mk(Q.copy())(t), float)
+                    if not (numpy.abs(p2 - p1).max() <= 1e-12):
+                        fail(f"{bname}: the answer for a time depends on the times the same object was asked for before", {"t": t, "max_abs_diff": float(numpy.abs(p2 - p1).max())})
+                        break
+                p3 = numpy.asarray(ex(DIRECT_T[0]), float)  # `ex` has now seen every time in ascending order
+                if not (numpy.abs(p3 - numpy.asarray(mk(Q.copy())(DIRECT_T[0]), float)).max() <= 1e-12):
+                    fail(f"{bname}: the answer for a time depends on the times the same object was asked for before", {"t": DIRECT_T[0]})
+        except Exception as e:  # noqa: BLE001
+            fail(f"{bname}: re-used exponentiator raised {type(e).__name__} [{cls}]", {"error": str(e)[:200]})
+        acc.count("reused_exponentiator_evaluations", len(DIRECT_T) + 1)
 
 
 def check_discrete(name, acc, report=True):
